@@ -1189,3 +1189,20 @@ def _reuse_compound_expr(repo, ob, failure):
 
 GENERATORS.insert(0, ("C14.reuse.evaluated", _reuse_compound_expr))
 GENERATORS.insert(0, ("C18.reuse.evaluated", _reuse_compound_expr))
+
+
+def _empty_content_shape(repo, ob, failure):
+    """<rect ..></rect> (start and end tag, nothing between) is <rect ../>"""
+    import re as _re
+    for a, b in (('<svg><rect cxy="5" wh="4"></rect></svg>', '<svg><rect cxy="5" wh="4"/></svg>'),
+                 ('<svg><circle id="c" cxy="20 5" r="3"></circle><rect xy="#c|h 1" wh="2"/></svg>', '<svg><circle id="c" cxy="20 5" r="3"/><rect xy="#c|h 1" wh="2"/></svg>')):
+        ra, rb = run_svgdx(repo, a), run_svgdx(repo, b)
+        if rb["rc"] != 0:
+            continue
+        norm = lambda s: _re.sub(r"></(rect|circle)>", "/>", s)
+        if ra["rc"] != 0 or norm(ra["out"]) != norm(rb["out"]):
+            return {"input": a, "observed": (ra["out"].split("</style>")[-1] if ra["rc"] == 0 else ra["err"])[-160:], "expected": "as " + b + ": " + rb["out"].split("</style>")[-1][-120:]}
+    return None
+
+
+GENERATORS.insert(0, ("C11.container.empty_content", _empty_content_shape))
